@@ -78,6 +78,21 @@ def json_roundtrip_prog_full : Prop :=
   ∀ (T : Ty) (v : Val), T.wf = true → v.wf = true → jsonRepr T v = true →
     ∃ j v', marshalVM v = .some j ∧ castAll false T (unmarshalUntyped j) [] = .ok v' ∧ v'.isEqual v = true
 
+/-- What does hold on the program route, for both libraries: with the extra hypothesis that no
+float inside the value is integral (`noIntegralFloat`, the zone X5 spoils), a JSON-representable
+value written by `to_json`, read by `parse_json` and bound by an annotated `let` of its type is
+an equal value. -/
+theorem json_roundtrip_prog_partial (T : Ty) (hT : T.wf = true) (v : Val) (hw : v.wf = true)
+    (hr : jsonRepr T v = true) (hf : noIntegralFloat v = true) (p : Path) :
+    (∃ j v', marshalVM v = .some j ∧ castAll false T (unmarshalUntyped j) p = .ok v' ∧ v'.isEqual v = true)
+    ∧ (∃ j v', marshalTree v = .some j ∧ castAll false T (unmarshalUntyped j) p = .ok v' ∧ v'.isEqual v = true) :=
+  ⟨rt_prog _ T hT v hw hr hf p, rt_prog _ T hT v hw hr hf p⟩
+
+/-- non-vacuity: a nested value in the class -/
+example : let T : Ty := .obj (.cons "a" (.list (.opt .int)) (.cons "b" .float .nil))
+          let v : Val := .obj (.cons "b" (.flt ⟨5, 1⟩) (.cons "a" (.list (.cons .none (.cons (.some (.int 7#64)) .nil))) .nil))
+          T.wf = true ∧ v.wf = true ∧ jsonRepr T v = true ∧ noIntegralFloat v = true := by decide
+
 private def okB' : CastRes → Bool
   | .ok _ => true
   | .error _ => false
